@@ -151,18 +151,14 @@ Ltac split_group :=
 Ltac kinds :=
   match goal with
   | |- context [member_num ?a] =>
-    let A := fresh "K" in let B := fresh "K" in let C := fresh "K" in
+    let A := fresh "Km" in let B := fresh "Kt" in let C := fresh "Kp" in
     destruct (kind_cases a) as [(A & B & C)|[(A & B & C)|[(A & B & C)|(A & B & C)]]];
     rewrite (member_num_eq a); unfold member_num' at 1; rewrite A, ?B, ?C
   end.
 
-Section A.
-Variable L : limits.
-Variable kdf : kdf_t.
 
-Lemma argon2_body pre n body pw :
-  parse (pre ++ body) = POk (body_tree (Some pre) n body) ->
-  In pre [p_argon2d; p_argon2i; p_argon2id] ->
+(* ---- the statement per prefix and body, and the common opening of its proof ---- *)
+Definition argon2_stmt (L : limits) (kdf : kdf_t) (pre body pw : bytes) : Prop :=
   class_of (check_argon2 L kdf (pre ++ body) pw) =
   match recog_argon2_body pre (pre ++ body) with
   | None => 2%nat
@@ -170,35 +166,38 @@ Lemma argon2_body pre n body pw :
                 (key_argon2 L kdf pw (r_salt r) (nth 0 (r_nums r) 0) (nth 1 (r_nums r) 0) (nth 2 (r_nums r) 0)
                             (Some (r_prefix r, nth 3 (r_nums r) 0))) (r_sum r)
   end.
-Proof.
-  intros HP Hin.
-  unfold check_argon2, with_layout, unmarshal_top. rewrite HP, ti_argon2. unfold TI_argon2.
-  cbn [bind]. unfold body_tree.
-  unfold recog_argon2_body. rewrite skipn_app_exact. cbv zeta.
-  pose proof (sc_rel body n) as HR. pose proof (rel_length _ _ HR) as HL.
-  destruct (sc [] n n body None) as [|[[p1 t1]|g1] [|[[p2 t2]|g2] [|[[p3 t3]|g3] [|[[p4 t4]|g4] [|f5 fr]]]]];
-    destruct (pieces dollar [] body) as [|q1 [|q2 [|q3 [|q4 [|q5 qs]]]]];
-    cbn [length map] in HL; rewrite ?map_length in HL; try (exfalso; lia); clear HL; rel_facts HR; fv_piece.
-  all: unfold unmarshal_tree; cbn [ti_prefix prefix ti_fields ti_numreq frags];
-    rewrite (argon2_prefix_ok pre Hin); cbn [fi_embptr bind fi_index].
-  all: try (rewrite rest_comma by (first [left; symmetry; assumption | right; symmetry; assumption])).
-  all: try (rewrite ver_rest_comma by (first [left; symmetry; assumption | right; symmetry; assumption])).
-  all: repeat match goal with
-              | H : true = has_comma ?q |- context [has_comma ?q] => rewrite <- H
-              | H : false = has_comma ?q |- context [has_comma ?q] => rewrite <- H
-              end.
-  all: cbn [negb]; rewrite ?andb_false_r, ?andb_true_r; cbn [andb].
-  all: unfold recog_argon2_rest.
-  all: repeat match goal with
-              | H : false = has_comma ?q |- context [split_on comma [] ?q] =>
-                rewrite (split_on_plain comma q (eq_sym H))
-              end.
-  all: cbv iota beta; rewrite ?if_none_none.
-  (* the two shapes the layout admits *)
-  all: match goal with |- context [map ufrag_of [FG _; FV _; FV _]] => idtac | _ => shelve end.
-  split_group.
-  Time all: try match goal with |- _ = 2%nat => solve [crunchA; reflexivity] end.
-  Time (kinds; kinds; kinds; rewrite ?in_alpha_fi; unfold member_by; crunchA; try reflexivity; try apply argon2_finish).
-  Show.
-Abort.
-End A.
+
+(* the two fragment shapes the layout admits *)
+Definition good3 (l : list frag) : Prop := exists g v2 v3, l = [FG g; FV v2; FV v3].
+Definition good4 (l : list frag) : Prop := exists v1 g v3 v4, l = [FV v1; FG g; FV v3; FV v4].
+
+(* opening: unfold both sides, destruct the shape of the fragment list l (an equation El : sc ... = l is kept
+   out of the way by the callers), derive the facts about the pieces, simplify the recogniser's side *)
+Ltac argon2_open HP Hin n body pre :=
+  unfold argon2_stmt, check_argon2, with_layout, unmarshal_top; rewrite HP, ti_argon2; unfold TI_argon2;
+  cbn [bind]; unfold body_tree;
+  unfold recog_argon2_body; rewrite skipn_app_exact; cbv zeta;
+  let HR := fresh "HR" in let HL := fresh "HL" in
+  pose proof (sc_rel body n) as HR; pose proof (rel_length _ _ HR) as HL;
+  revert HR HL.
+
+Ltac argon2_rhs pre Hin :=
+  unfold unmarshal_tree; cbn [ti_prefix prefix ti_fields ti_numreq frags];
+  rewrite (argon2_prefix_ok pre Hin); cbn [fi_embptr bind fi_index];
+  try (rewrite rest_comma by (first [left; symmetry; assumption | right; symmetry; assumption]));
+  try (rewrite ver_rest_comma by (first [left; symmetry; assumption | right; symmetry; assumption]));
+  repeat match goal with
+         | H : true = has_comma ?q |- context [has_comma ?q] => rewrite <- H
+         | H : false = has_comma ?q |- context [has_comma ?q] => rewrite <- H
+         end;
+  cbn [negb]; rewrite ?andb_false_r, ?andb_true_r; cbn [andb];
+  unfold recog_argon2_rest;
+  repeat match goal with
+         | H : false = has_comma ?q |- context [split_on comma [] ?q] =>
+           rewrite (split_on_plain comma q (eq_sym H))
+         end;
+  cbv iota beta; rewrite ?if_none_none.
+
+Ltac pieces_facts HR HL body :=
+  destruct (pieces dollar [] body) as [|?q [|?q [|?q [|?q [|?q ?qs]]]]];
+  cbn [length map] in HL; rewrite ?map_length in HL; try (exfalso; lia); clear HL; rel_facts HR; fv_piece.
